@@ -1,12 +1,10 @@
 #!/bin/bash
 # harmless_eval.sh <N> <checks...>: run the given checks against each behaviour-preserving refactoring
-# /tmp/harmless-<N>/harmless_k.diff (k = 1..4); a VIOLATION line here is a FALSE ALARM.
+# seeded/harmless/<N>_<k>/patch.diff (k = 1..4; patch_rebased.diff preferred); a VIOLATION line here is a FALSE ALARM.
 set -u
 N=$1; shift; CHECKS="$@"
 for k in 1 2 3 4; do
-  P=/tmp/harmless-$N/harmless_$k.diff; [ -f $P ] || continue
-  OUT=/verif/seeded/harmless/${N}_$k; mkdir -p $OUT; cp $P $OUT/patch.diff
-  cp /tmp/harmless-$N/harmless_meta.json $OUT/agent_meta.json 2>/dev/null
+  OUT=/verif/seeded/harmless/${N}_$k; [ -f $OUT/patch.diff ] || continue
   S=/var/tmp/pd-harmless-${N}_$k; rm -rf $S; cp -r /repo $S
   PP=$OUT/patch.diff; [ -f $OUT/patch_rebased.diff ] && PP=$OUT/patch_rebased.diff
   git -C $S apply $PP || { echo "${N}_$k: patch does not apply"; rm -rf $S; continue; }
